@@ -4,12 +4,63 @@ SPEC = {
     "parts": [part("c20_script", "asan", ["c20_script.cpp", "c20_agree.cpp", "c20_seq.cpp"],
                    env={"ASAN_OPTIONS": "detect_leaks=0:allocator_may_return_null=1:max_allocation_size_mb=2048"},
                    timeout={"quick": 1500, "thorough": 7200})],
-    "rule": "TBD",
-    "assumptions": [],
+    "rule": "four enumerations on the ASan+UBSan build, every case on a fresh module in forked batches (a case that kills its "
+            "child is replayed alone twice and reported with the command, the argument class and the kind of death). "
+            "(1 totality) every command registered in the script object (harvested with cv listcommands and the "
+            "get_command_* accessors: 86) x every argument tuple of arity 0..max+1 over {empty string, name of a variable, "
+            "name of a bias, unknown name, 0, -1, 1e999, unbalanced brace, unbalanced quote, 4 KB string, and the valid "
+            "values derived from the argument's name and type in its help string (configuration text of one more bias / "
+            "variable, path of a configuration file, state string and state file prefix of a donor run, force matching the "
+            "variable's dimensionality, every feature name of the object, on/off, ...)}, for variable/bias commands also "
+            "every such token in the position of the object name, plus raw dispatch forms (no words, cv alone, unknown "
+            "sub-commands, missing names), in three module states (empty, configured with 2 variables + 2 biases, the same "
+            "after 3 steps) of scenario A {distance, distanceVec, harmonic, abf} (thorough: also B {extended-Lagrangian "
+            "distance, orientation, metadynamics, harmonic} and C {distanceZ with running average and total force, "
+            "cartesian, harmonicWalls, histogram}); oracle: the call returns OK or an error code with a message, one more "
+            "step returns; after a REJECTED call the step must succeed and equal the run without the call; after an accepted "
+            "call a step error is tolerated only if reset + configuration + step then succeed; query commands (get*, list*, "
+            "help, version, value/energy/type/state/bin queries, savetostring, printframe, get/set commands without their "
+            "argument) must leave the next step bit-identical (values, forces, energies, atom forces, state text) to the run "
+            "without them; cv list must equal the internal lists. (2 agreement) 3 scenarios x 2 total-force conventions x "
+            "{plain run, run resumed from a state, step counter above 2^31} x 5 (thorough 8) steps: after every step ~75 "
+            "queries are parsed and compared, at the precision the script prints (15 significant digits for "
+            "variable-typed results, 6 for plain reals), with the engine-side arrays of the simulator (positions, masses, "
+            "charges, total forces, forces and energy received), with the module's members, with the state text written by "
+            "the engine path, and in scenario A with own arithmetic (values, gradients, restraint energy and force, ABF bin "
+            "and sample counts, atom forces = applied force x gradient, force statistics). (3 paths) each of 16 script "
+            "operations alone from the 3 module states, 10 configuration menus (whole, piecewise, with steps in between, 5 "
+            "erroneous texts) through cv config vs read_config_string, addforce issued from the engine's force callback vs "
+            "add_bias_force (2 orders x with/without biases x 2 variables x 4 forces, plus own arithmetic force x gradient), "
+            "cv loadfromstring vs the engine's input state on a fresh and on a running module: the next 2 steps must be "
+            "bit-identical. (4 sequences) ALL sequences of length <= 3 (thorough 4; scenarios B, C one shorter in both tiers) over {step, cv config of one more "
+            "bias, addforce x2, bias delete x2, colvar delete x2, savetostring+loadfromstring, set active 0/1, get active, "
+            "cv update, cv reset, cv config of the scenario, cv delete} from the configured state and of length <= 2 "
+            "(thorough 3) from the after-3-steps state (B, C again one shorter), run through the script and "
+            "through the direct API path + 2 steps: same acceptance pattern, bit-identical records, cv list = internal "
+            "lists, and (scenario A) script values = own arithmetic on the current coordinates. states = distinct "
+            "observation records, transitions = commands and steps applied; a case is distinct by (scenario, state, words) "
+            "or (scenario, start state, operation sequence); part 1 cases count as non-trivial only when the command body "
+            "was reached (not rejected by the dispatcher or the argument-count check)",
+    "assumptions": ["commands are issued through run_colvarscript_command()/get_colvarscript_result() with the error state "
+                    "cleared before each call, as the Tcl wrapper does; no Tcl interpreter, no VMD (cv delete, cv molid, "
+                    "cv frame only in their refusing form)",
+                    "fixed scenarios (3 x 2 variables + 2 biases), scripted coordinates and system forces, serial (smp off)",
+                    "a step error after an ACCEPTED state-changing command (e.g. cvcflags 0, set apply_force 0) is the "
+                    "module reporting an inconsistent request, not a violation, provided reset + configuration recovers",
+                    "colvar getatomids is compared only for variables whose collect_atom_ids feature is on (the list is "
+                    "kept on request only)"],
 }
 META = {
-  "text": "TBD",
+  "text": "Bounded-exhaustive exploration of the real script interface: the full registered command table x a fixed alphabet "
+          "of argument classes x three module states (depth 1), and all sequences up to depth 3/4 over a reduced alphabet of "
+          "script operations, every execution on a fresh module under AddressSanitizer/UBSan in forked batches; oracles are "
+          "totality (returns, message with every error, module usable or recoverable), non-interference of queries "
+          "(bit-identical next step), agreement of parsed query results with the engine-side arrays / internal members / own "
+          "arithmetic, and a differential oracle between the script path and the configuration-file / engine-driven path.",
   "design_ref": "DESIGN.md section 3, C20",
-  "note": "TBD",
-  "technique": "TBD",
+  "note": "Trusted: the engine simulator (vproxy), the harness's reading of private members (-fno-access-control), the "
+          "classification of commands into queries and actions by name, the own arithmetic of scenario A. Bounded: 3 "
+          "scenarios, 10+ argument classes, depth 4.",
+  "technique": "exhaustive enumeration of command x argument-class tuples and of operation sequences on the real code with "
+               "crash, non-interference, agreement and script-vs-direct differential oracles",
 }
